@@ -23,7 +23,7 @@ import (
 func init() { Register("C03", "exploration", checkC03) }
 
 func checkC03(c *Ctx) {
-	c.Rule = "signing proposals built through the API (explicit payload maps, baked ranges) and hand-built signed proposals mixing several explicit tasks and several ranges (empty range, single position, list boundaries), payload bytes incl. 0x00/0xff/JSON metacharacters/>64 KiB, names with spaces and unicode, duplicate payloads; n in {2,3}. For every message of every proposal: each participant's partial signature is verified (prysm) under that participant's share public key over the harness-expanded bytes; id lists, stored SrcPayload/File/ValIdx, broadcasts and exports are compared with the independent expansion. Every world ends with a signed batch proposed again under the same identifiers with other payloads plus one identifier nobody ever signed, unanswered: in stores, per-batch exports and the whole-round export a signature never stands next to bytes it does not verify for, and the never-answered message is exported with its own payload and no signature. distinct = distinct (proposal shape, n) with at least one judged partial signature"
+	c.Rule = "signing proposals built through the API (explicit payload maps, baked ranges) and hand-built signed proposals mixing several explicit tasks and several ranges (empty range, single position, list boundaries), payload bytes incl. 0x00/0xff/JSON metacharacters/>64 KiB, names with spaces and unicode, duplicate payloads; n in {2,3}. For every message of every proposal: each participant's partial signature is verified (prysm) under that participant's share public key over the harness-expanded bytes; id lists, stored SrcPayload/File/ValIdx, broadcasts and exports are compared with the independent expansion. Every world ends with a signed batch proposed again under the same identifiers with other payloads plus one identifier nobody ever signed, unanswered: in stores, per-batch exports and the whole-round export a signature never stands next to bytes it does not verify for, and the never-answered message is exported with its own payload and no signature. A quarter of the worlds is operated through the dc4bc_cli binary (sign_batch_data on a directory with sub-directories), a quarter through REST; on every channel the tasks of the proposal on the board are compared with the files handed in (name -> bytes); payloads ending in line breaks. distinct = distinct (proposal shape, n) with at least one judged partial signature"
 	c.Assumptions = []string{"independent expansion: pinned list + independent SSZ reference", "prysm/blst verifies partial signatures under PubPoly.Eval(i)"}
 	worlds := c.Pick(32, 240)
 	perWorld := c.Pick(6, 16)
@@ -31,10 +31,15 @@ func checkC03(c *Ctx) {
 		seed := c.Seed*104729 + uint64(wi)
 		r := sched.Derive(seed, 3)
 		n := 2 + wi%2
-		ce, err := NewCeremony(seed, n, 2, world.EagerPolicy)
+		// one world in four is operated through the shipped dc4bc_cli binary (sign_batch_data reads the files
+		// of a directory, sign_baked takes the window), another one through the REST API
+		ce, err := NewCeremonyWith(world.Options{N: n, T: 2, Seed: seed, ViaHTTP: wi%4 >= 2, ViaCLI: wi%4 == 3 && world.CLIBin() != ""}, world.EagerPolicy)
 		if err != nil || !ce.AllIn(StIdle) {
 			c.Inconclusive("ceremony: %v", err)
 			return
+		}
+		if ce.W.Opt.ViaCLI {
+			c.Add("worlds_operated_through_the_dc4bc_cli_binary", 1)
 		}
 		defer ce.Close()
 		_, poly, err := ce.GroupKeyFromMachines()
@@ -66,7 +71,8 @@ func c03Payload(r *sched.Rng, kind int) []byte {
 	case 4:
 		return []byte("duplicate payload")
 	case 5:
-		return []byte("ünïcødé → 漢字   end")
+		// text as an editor leaves it (trailing line break), sometimes nothing but line breaks
+		return []byte([]string{"\u00fcn\u00efc\u00f8d\u00e9 \u2192 \u6f22\u5b57 \u2028 end\n", "line one\r\nline two\r\n", "\n", "no break at the end"}[r.Intn(4)])
 	case 6:
 		return []byte{} // an empty file: still an explicit payload (zero bytes), not a range
 	}
@@ -138,6 +144,9 @@ func runC03Proposal(c *Ctx, ce *Ceremony, poly *share.PubPoly, r *sched.Rng, wi,
 	wit := map[string]interface{}{"world": wi, "proposal": pi, "n": n, "shape": shape}
 	before := ce.W.Board.Len()
 	prop, err := ce.RunBatch(spec, world.EagerPolicy)
+	if ce.ProposalMismatch != "" {
+		c.Violate("C03/proposal-differs-from-what-was-handed-in", ce.ProposalMismatch, wit)
+	}
 	if err != nil {
 		c.Inconclusive("batch %v: %v", wit, err)
 		return
@@ -283,7 +292,6 @@ func runC03Proposal(c *Ctx, ce *Ceremony, poly *share.PubPoly, r *sched.Rng, wi,
 }
 
 var _ = storage.Message{}
-
 
 // c03Reproposed: at the end of a world, a signed batch is proposed AGAIN by its proposer under the same
 // batch id and the same message identifiers but with other payloads (identifiers are the proposer's
